@@ -5,6 +5,7 @@ package eng
 import (
 	"fmt"
 	"go/token"
+	"go/types"
 	"regexp"
 
 	"golang.org/x/tools/go/ssa"
@@ -62,25 +63,50 @@ func checkCompareCore(c *Check, w *World, tb *TB, pfx string, entry *ssa.Functio
 		} else {
 			c.OK(pfx+".6", fn, "compared-expected", "the expected side is the whole string returned by the shared derivation for this step", w.InstrPos(h.Call))
 		}
-		// acceptance (return true) only where the comparison result is known to equal 1
+		// acceptance (a true verdict) only where the comparison result is known to equal 1 — in the comparing
+		// function and in every wrapper above it up to (not including) the entry point, whose own acceptance is
+		// judged by the window rules
 		cv := h.Call.Value()
-		okEq, nAcc := true, 0
-		for _, r := range Returns(h.Fn) {
-			k, ok := r.Results[0].(*ssa.Const)
-			if !ok || k.Value == nil || k.Value.String() != "true" {
-				continue
+		vt := newVtrack()
+		vt.atomOK = func(f *ssa.Function, at Atom) bool {
+			if f != h.Fn || at.Op != token.EQL {
+				return false
 			}
-			nAcc++
-			found := false
-			for _, at := range atomsOf(CondsAt(r.Block())) {
-				if at.X == cv && at.Op == token.EQL {
-					if kk, ok := constInt(at.Y); ok && kk.Int64() == 1 {
-						found = true
+			x, y := at.X, at.Y
+			if y == cv {
+				x, y = y, x
+			}
+			if x != cv {
+				return false
+			}
+			kk, ok := constInt(y)
+			return ok && kk.Int64() == 1
+		}
+		okEq, nAcc := true, 0
+		lowest := 1
+		if len(h.Levels) == 1 {
+			lowest = 0 // the comparison sits in the entry function itself
+		}
+		for k := len(h.Levels) - 1; k >= lowest; k-- {
+			lv := h.Levels[k]
+			hasBool := false
+			for _, r := range Returns(lv.Fn) {
+				if len(r.Results) > 0 {
+					if b, isB := r.Results[0].Type().Underlying().(*types.Basic); isB && b.Kind() == types.Bool {
+						hasBool = true
 					}
 				}
 			}
-			if !found {
+			if !hasBool {
+				break
+			}
+			nAcc++
+			if !vt.fnOK(lv.Fn) {
 				okEq = false
+				break
+			}
+			if k > 0 {
+				vt.resultCarriers(h.Levels[k-1].Fn, h.Levels[k-1].Site)
 			}
 		}
 		c.Decide(okEq && nAcc > 0, pfx+".6", fn, "compare-result", "acceptance only where ConstantTimeCompare(...) == 1 holds", "a 'true' verdict is returned where the comparison result is not known to be 1 (or never)", w.InstrPos(h.Call))
